@@ -45,16 +45,14 @@ func ZipToTar(r *os.File, w io.Writer) error {
 		return err
 	}
 	tw := tar.NewWriter(w)
-	if _, err := r.Seek(dirLoc, 0); err != nil {
+	// Read through section readers instead of the shared file offset: a consumer
+	// may stop before the end of the stream (the XAP digester never reads the
+	// directory part of the second member), and the caller then seeks and copies
+	// the same file in Apply while this function is still reading.
+	if err := tarAddStream(tw, io.NewSectionReader(r, dirLoc, size-dirLoc), TarMemberCD, size-dirLoc); err != nil {
 		return err
 	}
-	if err := tarAddStream(tw, r, TarMemberCD, size-dirLoc); err != nil {
-		return err
-	}
-	if _, err := r.Seek(0, 0); err != nil {
-		return err
-	}
-	if err := tarAddStream(tw, r, TarMemberZip, size); err != nil {
+	if err := tarAddStream(tw, io.NewSectionReader(r, 0, size), TarMemberZip, size); err != nil {
 		return err
 	}
 	return tw.Close()
